@@ -82,8 +82,10 @@ def u8At (b : Bytes) (i : Nat) : Res Byte :=
   | x :: _ => .ok x
   | [] => .panic
 def u16 (x y : Byte) : BitVec 16 := BitVec.ofNat 16 (x.toNat * 256 + y.toNat)
+/-- (nested multiplications by 256 on purpose: a product of a symbolic value with a huge literal is
+unfolded unary by definitional unfolding) -/
 def u32 (a b c d : Byte) : BitVec 32 :=
-  BitVec.ofNat 32 (a.toNat * 16777216 + b.toNat * 65536 + c.toNat * 256 + d.toNat)
+  BitVec.ofNat 32 (((a.toNat * 256 + b.toNat) * 256 + c.toNat) * 256 + d.toNat)
 /-- `binary.BigEndian.Uint16(b[i:])` -/
 def u16At (b : Bytes) (i : Nat) : Res (BitVec 16) :=
   match b.drop i with
@@ -110,9 +112,9 @@ def slice (b : Bytes) (lo hi : Nat) : Res Bytes :=
 def byteOf (n : Nat) : Byte := BitVec.ofNat 8 n
 def be16 (v : BitVec 16) : Bytes := [byteOf (v.toNat / 256), byteOf v.toNat]
 def be32 (v : BitVec 32) : Bytes :=
-  [byteOf (v.toNat / 16777216), byteOf (v.toNat / 65536), byteOf (v.toNat / 256), byteOf v.toNat]
+  [byteOf (v.toNat / 256 / 256 / 256), byteOf (v.toNat / 256 / 256), byteOf (v.toNat / 256), byteOf v.toNat]
 def le32 (v : BitVec 32) : Bytes :=
-  [byteOf v.toNat, byteOf (v.toNat / 256), byteOf (v.toNat / 65536), byteOf (v.toNat / 16777216)]
+  [byteOf v.toNat, byteOf (v.toNat / 256), byteOf (v.toNat / 256 / 256), byteOf (v.toNat / 256 / 256 / 256)]
 def zeros (n : Nat) : Bytes := List.replicate n 0#8
 /-- Go `uint16(n)` of an `int` -/
 def trunc16 (n : Nat) : BitVec 16 := BitVec.ofNat 16 n
